@@ -104,7 +104,9 @@ VARIANTS = {
     # development aid (tools/coverage.py): source-based coverage of /repo under the checks' workloads
     "cov": {
         "cmd": ["cargo", "+nightly", "build", "--offline"],
-        "env": {"RUSTFLAGS": HOOK_CFG + " -Cinstrument-coverage"},
+        # build scripts and proc macros are instrumented too and write a profile where they run (the crate directory inside
+        # /repo) unless told otherwise: keep those out of the repository
+        "env": {"RUSTFLAGS": HOOK_CFG + " -Cinstrument-coverage", "LLVM_PROFILE_FILE": "/tmp/verif_cov_build/%p-%m.profraw"},
         "bin": "debug/dmntk-verif-driver",
     },
     # valgrind memcheck over the plain debug binary (same build as dbg): uninitialised reads and heap errors
